@@ -24,6 +24,14 @@ pub broadcast axiom fn ax_id_obeys_eq<V: NumericId>()
 pub broadcast axiom fn ax_id_obeys_cmp<V: NumericId>()
     ensures #[trigger] V::obeys_cmp_spec();
 
+pub broadcast axiom fn ax_id_obeys_partial_cmp<V: NumericId>()
+    ensures #[trigger] V::obeys_partial_cmp_spec();
+
+// A-id: `<`, `<=`, `>`, `>=` of an id type are those of its index
+pub broadcast axiom fn ax_id_partial_cmp<V: NumericId>(a: V, b: V)
+    ensures
+        (#[trigger] a.partial_cmp_spec(&b)) == Some(if a.ix() < b.ix() { core::cmp::Ordering::Less } else if a.ix() == b.ix() { core::cmp::Ordering::Equal } else { core::cmp::Ordering::Greater });
+
 pub broadcast axiom fn ax_id_eq<V: NumericId>(a: V, b: V)
     ensures
         (#[trigger] a.eq_spec(&b)) <==> (a.ix() == b.ix()),
@@ -52,4 +60,3 @@ pub broadcast axiom fn ax_id_cmp<V: NumericId>(a: V, b: V)
 
 } // mod nid
 use nid::*;
-broadcast use {nid::ax_id_eq, nid::ax_id_cmp, nid::ax_id_obeys_eq, nid::ax_id_obeys_cmp};
